@@ -5,7 +5,7 @@
    the segments one by one gives the same id, the same matcher state and the same
    stream offset as one search over the concatenation. *)
 From Coq Require Import Lia.
-From MS Require Import Smack Proto Proofs.Tactics Proofs.SmackSeg Spec.C10.
+From MS Require Import Smack Proto Proofs.Tactics Proofs.Pending Proofs.SmackSeg Spec.C10.
 
 (* the matcher over a list of segments: the state is carried from one segment to
    the next while nothing is identified; [off] = bytes of the stream consumed *)
@@ -97,31 +97,54 @@ End Seg.
 (* ---------- the control block ---------- *)
 Lemma dispatch_no_match E clk ci tc data :
   dispatch E clk ci NO_MATCH (Some tc) data =
-  Ok (ci, Some {| t_smack := t_smack tc; t_proto := PROTO_NONE; t_pstate := t_pstate tc |}, None).
+  Ok (ci, Some {| t_smack := t_smack tc; t_proto := PROTO_NONE; t_pstate := t_pstate tc;
+                  t_pending := t_pending tc |}, None).
 Proof. reflexivity. Qed.
 
-(* no signature completed in this segment: no payload; the matcher state is kept *)
+(* the bytes kept after one more unidentified segment / a list of them *)
+Definition pending_step (p a : bytes) : bytes :=
+  if lenN p + lenN a <=? PENDING_MAX then p ++ a else [].
+Fixpoint pending_after (p : bytes) (segs : list bytes) : bytes :=
+  match segs with
+  | [] => p
+  | a :: r => pending_after (pending_step p a) r
+  end.
+
+(* as long as the bound is respected, all the bytes received so far are kept *)
+Lemma pending_after_small segs : forall p,
+  lenN p + lenN (concat segs) <= PENDING_MAX -> pending_after p segs = p ++ concat segs.
+Proof.
+  induction segs as [|a r IH]; intros p H; cbn [pending_after concat].
+  - rewrite app_nil_r. reflexivity.
+  - cbn [concat] in H. unfold lenN in H. rewrite app_length in H.
+    unfold pending_step. assert ((lenN p + lenN a <=? PENDING_MAX) = true) as -> by (unfold lenN; lia).
+    rewrite IH by (unfold lenN; rewrite app_length; lia). rewrite app_assoc. reflexivity.
+Qed.
+
+(* no signature completed in this segment: no payload; the matcher state is kept, and so
+   is the segment *)
 Lemma proto_repl_tcp_unidentified E clk ci tc data st' n :
   t_proto tc = PROTO_NONE ->
   search_next (e_proto_tbl E) (t_smack tc) data = (None, st', n) ->
   proto_repl_tcp E clk ci tc data =
-  Ok (ci, {| t_smack := st'; t_proto := PROTO_NONE; t_pstate := t_pstate tc |}, None).
+  Ok (ci, {| t_smack := st'; t_proto := PROTO_NONE; t_pstate := t_pstate tc;
+             t_pending := pending_step (t_pending tc) data |}, None).
 Proof.
-  intros Hp H. unfold proto_repl_tcp. rewrite Hp. change (PROTO_NONE =? PROTO_NONE) with true. cbv iota.
-  rewrite H. cbn [id_of t_proto]. rewrite dispatch_no_match. reflexivity.
+  intros Hp H. unfold proto_repl_tcp. rewrite (tcp_identify_none E tc data st' n Hp H).
+  cbn [t_proto]. rewrite dispatch_no_match. reflexivity.
 Qed.
 
-(* a signature completed in this segment: the segment goes to dispatch under that id *)
+(* a signature completed in this segment: the bytes kept so far followed by the segment go
+   to dispatch under that id *)
 Lemma proto_repl_tcp_identified E clk ci tc data i st' n :
   t_proto tc = PROTO_NONE ->
   search_next (e_proto_tbl E) (t_smack tc) data = (Some i, st', n) ->
   proto_repl_tcp E clk ci tc data =
-  let tc1 := {| t_smack := st'; t_proto := i; t_pstate := t_pstate tc |} in
-  do r <- dispatch E clk ci i (Some tc1) data;
+  let tc1 := {| t_smack := st'; t_proto := i; t_pstate := t_pstate tc; t_pending := [] |} in
+  do r <- dispatch E clk ci i (Some tc1) (t_pending tc ++ data);
   let '(ci', t', out) := r in Ok (ci', match t' with Some x => x | None => tc1 end, out).
 Proof.
-  intros Hp H. unfold proto_repl_tcp. rewrite Hp. change (PROTO_NONE =? PROTO_NONE) with true. cbv iota.
-  rewrite H. reflexivity.
+  intros Hp H. unfold proto_repl_tcp. rewrite (tcp_identify_some E tc data i st' n Hp H). reflexivity.
 Qed.
 
 (* feed a list of segments to proto_repl_tcp; returns the control block and the payloads *)
@@ -142,19 +165,21 @@ Section Feed.
   Hypothesis Hok : smack_ok t = true.
   Hypothesis Hsz : sm_rows t <= TWO24.
 
-  (* as long as the concatenation completes no signature: nothing is answered, and
-     the control block holds exactly the matcher state of the one-shot search *)
+  (* as long as the concatenation completes no signature: nothing is answered, the
+     control block holds exactly the matcher state of the one-shot search, and the bytes
+     received (all of them while they are at most PENDING_MAX: [pending_after_small]) *)
   Theorem tcp_feed_unidentified segs : forall tc st' n,
     t_proto tc = PROTO_NONE -> plain t (t_smack tc) ->
     search_next t (t_smack tc) (concat segs) = (None, st', n) ->
     tcp_feed E clk ci tc segs =
-    Ok (ci, {| t_smack := st'; t_proto := PROTO_NONE; t_pstate := t_pstate tc |},
+    Ok (ci, {| t_smack := st'; t_proto := PROTO_NONE; t_pstate := t_pstate tc;
+               t_pending := pending_after (t_pending tc) segs |},
         repeat None (length segs)).
   Proof.
-    induction segs as [|a r IH]; intros tc st' n Hp Hpl H; cbn [tcp_feed concat length repeat] in *.
+    induction segs as [|a r IH]; intros tc st' n Hp Hpl H; cbn [tcp_feed concat length repeat pending_after] in *.
     - destruct Hpl as [Hr Hl]. rewrite search_next_row in H by lia. cbn [inner_match] in H. cbv zeta in H.
       rewrite (sm_count_lo t _ Hok Hr Hl) in H. change (0 =? 0) with true in H. cbv iota in H.
-      injection H as <- _. destruct tc as [s p ps]. cbn [t_smack t_proto t_pstate] in *. subst p. reflexivity.
+      injection H as <- _. destruct tc as [s p ps pe]. cbn [t_smack t_proto t_pstate t_pending] in *. subst p. reflexivity.
     - rewrite (search_next_split t Hok Hsz _ a (concat r) Hpl) in H.
       destruct (search_next t (t_smack tc) a) as [[[i|] st1] n1] eqn:Ha; [discriminate|].
       fold t in Ha |- *.
@@ -162,62 +187,81 @@ Section Feed.
       destruct (search_none_plain t Hok Hsz _ a st1 n1 Hpl Ha) as [Hpl1 _].
       destruct (search_next t st1 (concat r)) as [[id2 st2] n2] eqn:Hr.
       injection H as -> -> _.
-      rewrite (IH {| t_smack := st1; t_proto := PROTO_NONE; t_pstate := t_pstate tc |} st' n2
+      rewrite (IH {| t_smack := st1; t_proto := PROTO_NONE; t_pstate := t_pstate tc;
+                     t_pending := pending_step (t_pending tc) a |} st' n2
                   eq_refl Hpl1 Hr).
       reflexivity.
   Qed.
 
-  (* the segment in which a signature of the stream is completed is dispatched
-     under the id the one-shot search over the whole stream gives, whatever the cuts *)
+  (* a fresh flow whose first bytes (at most PENDING_MAX of them) complete no signature *)
+  Corollary tcp_feed_unidentified_new segs st' n :
+    0 < sm_rows t -> 0 < sm_match_limit t ->
+    lenN (concat segs) <= PENDING_MAX ->
+    search_next t BASE_STATE (concat segs) = (None, st', n) ->
+    tcp_feed E clk ci tcb_new segs =
+    Ok (ci, {| t_smack := st'; t_proto := PROTO_NONE; t_pstate := None; t_pending := concat segs |},
+        repeat None (length segs)).
+  Proof.
+    intros H0 H1 Hlen H.
+    rewrite (tcp_feed_unidentified segs tcb_new st' n eq_refl (conj H0 H1) H).
+    cbn [tcb_new t_pstate t_pending]. rewrite pending_after_small by (cbn; exact Hlen). reflexivity.
+  Qed.
+
+  (* the segment in which a signature of the stream is completed is dispatched under the
+     id the one-shot search over the whole stream gives, whatever the cuts -- and the
+     handler is given the whole stream so far *)
   Theorem tcp_feed_identified segs a i st' n :
     0 < sm_rows t -> 0 < sm_match_limit t ->
+    lenN (concat segs) <= PENDING_MAX ->
     search_next t BASE_STATE (concat segs ++ a) = (Some i, st', n) ->
     (length (concat segs) < n)%nat ->
     exists st1,
-      tcp_feed E clk ci tcb_new segs =
-        Ok (ci, {| t_smack := st1; t_proto := PROTO_NONE; t_pstate := None |}, repeat None (length segs)) /\
-      proto_repl_tcp E clk ci {| t_smack := st1; t_proto := PROTO_NONE; t_pstate := None |} a =
-        (let tc1 := {| t_smack := st'; t_proto := i; t_pstate := None |} in
-         do r <- dispatch E clk ci i (Some tc1) a;
+      let tc0 := {| t_smack := st1; t_proto := PROTO_NONE; t_pstate := None; t_pending := concat segs |} in
+      tcp_feed E clk ci tcb_new segs = Ok (ci, tc0, repeat None (length segs)) /\
+      proto_repl_tcp E clk ci tc0 a =
+        (let tc1 := {| t_smack := st'; t_proto := i; t_pstate := None; t_pending := [] |} in
+         do r <- dispatch E clk ci i (Some tc1) (concat segs ++ a);
          let '(ci', t', out) := r in Ok (ci', match t' with Some x => x | None => tc1 end, out)).
   Proof.
-    intros H0 H1 H Hn.
+    intros H0 H1 Hlen H Hn.
     assert (Hpl : plain t BASE_STATE) by (split; assumption).
     rewrite (search_next_split t Hok Hsz BASE_STATE (concat segs) a Hpl) in H.
     destruct (search_next t BASE_STATE (concat segs)) as [[[j|] st1] n1] eqn:Hs.
     - injection H as -> -> ->.
       pose proof (search_some_inside t Hok Hsz _ _ _ _ _ Hpl Hs). lia.
-    - exists st1. split.
-      + exact (tcp_feed_unidentified segs tcb_new st1 n1 eq_refl Hpl Hs).
+    - exists st1. cbv zeta. split.
+      + exact (tcp_feed_unidentified_new segs st1 n1 H0 H1 Hlen Hs).
       + destruct (search_next t st1 a) as [[id2 st2] n2] eqn:Ha. injection H as -> -> _.
-        exact (proto_repl_tcp_identified E clk ci {| t_smack := st1; t_proto := PROTO_NONE; t_pstate := None |}
+        exact (proto_repl_tcp_identified E clk ci
+                 {| t_smack := st1; t_proto := PROTO_NONE; t_pstate := None; t_pending := concat segs |}
                  a i st' n2 eq_refl Ha).
   Qed.
 
   (* the same, in terms of the identification functions *)
   Corollary tcp_feed_first_id segs a i :
     0 < sm_rows t -> 0 < sm_match_limit t ->
+    lenN (concat segs) <= PENDING_MAX ->
     tcp_first_id_tbl t (concat segs) = None ->
     tcp_first_id_tbl t (concat segs ++ a) = Some i ->
     exists st1 st',
-      tcp_feed E clk ci tcb_new segs =
-        Ok (ci, {| t_smack := st1; t_proto := PROTO_NONE; t_pstate := None |}, repeat None (length segs)) /\
-      proto_repl_tcp E clk ci {| t_smack := st1; t_proto := PROTO_NONE; t_pstate := None |} a =
-        (let tc1 := {| t_smack := st'; t_proto := i; t_pstate := None |} in
-         do r <- dispatch E clk ci i (Some tc1) a;
+      let tc0 := {| t_smack := st1; t_proto := PROTO_NONE; t_pstate := None; t_pending := concat segs |} in
+      tcp_feed E clk ci tcb_new segs = Ok (ci, tc0, repeat None (length segs)) /\
+      proto_repl_tcp E clk ci tc0 a =
+        (let tc1 := {| t_smack := st'; t_proto := i; t_pstate := None; t_pending := [] |} in
+         do r <- dispatch E clk ci i (Some tc1) (concat segs ++ a);
          let '(ci', t', out) := r in Ok (ci', match t' with Some x => x | None => tc1 end, out)).
   Proof.
-    intros H0 H1 Hn Hs. unfold tcp_first_id_tbl in Hn, Hs.
+    intros H0 H1 Hlen Hn Hs. unfold tcp_first_id_tbl in Hn, Hs.
     assert (Hpl : plain t BASE_STATE) by (split; assumption).
     destruct (search_next t BASE_STATE (concat segs ++ a)) as [[id st'] n] eqn:Hsa. subst id.
     destruct (search_next t BASE_STATE (concat segs)) as [[id1 st1] n1] eqn:Hs1. subst id1.
     destruct (search_none_plain t Hok Hsz _ _ _ _ Hpl Hs1) as [_ Hn1].
-    assert (Hlen : (length (concat segs) < n)%nat).
+    assert (Hlt : (length (concat segs) < n)%nat).
     { rewrite (search_next_split t Hok Hsz BASE_STATE (concat segs) a Hpl), Hs1 in Hsa.
       destruct (search_next t st1 a) as [[id2 st2] n2] eqn:Ha. injection Hsa as -> -> <-.
       destruct (search_none_plain t Hok Hsz _ _ _ _ Hpl Hs1) as [Hpl1 _].
       pose proof (search_some_inside t Hok Hsz _ _ _ _ _ Hpl1 Ha). lia. }
-    destruct (tcp_feed_identified segs a i st' n H0 H1 Hsa Hlen) as (s1 & Hf & Hr).
+    destruct (tcp_feed_identified segs a i st' n H0 H1 Hlen Hsa Hlt) as (s1 & Hf & Hr).
     exists s1, st'. split; assumption.
   Qed.
 
